@@ -266,13 +266,12 @@ def uci_promotion_letters(fb, rep, clause, writer_names):
                    wfn.where, 'mismatches %s; suffix written per promotion piece %s' % (bad, {inv.get(k, k): v for k, v in wr.items() if v}), wfn.sname)
         # the colour of a 5-character move is taken from the target rank
         ranks = {}
+        rank_is = lambda v: (lambda t: ('v', v) if t.get('k') == 'call' and cname(t) == 'Square::getY' else None)
         for b, i, e in us.events():
             if e.get('k') == 'asg' and isinstance(e.get('l'), dict) and e['l'].get('id') in colour_ids and 'cv' in (e.get('r') or {}):
-                g = G.guards_of(us, set(us.blocks), b)
-                yy = [x for x in g if 'getY()' in x]
-                if yy:
-                    ranks[e['r']['cv']] = yy[-1]
-        ok = '== 7' in ranks.get(1, '') and not ranks.get(1, '').startswith('!') and '== 0' in ranks.get(0, '') and not ranks.get(0, '').startswith('!!')
+                # the ranks (0..7 of the target square) for which this colour assignment can be reached
+                ranks.setdefault(e['r']['cv'], set()).update(y for y in range(8) if not G.excluded_under(us, b, rank_is(y)))
+        ok = ranks.get(1) == {7} and ranks.get(0) == {0}
         rep.ob(clause, 'K4 guard', 'uciStringToMove: a promotion to rank 8 is white\'s, to rank 1 is black\'s', ok, us.where, str(ranks), us.sname)
 
 
@@ -413,7 +412,8 @@ def c3_external_ints(fb, rep):
                 ok, why = True, 'local initialised from getHalfMoveClock()'
             else:
                 g = G.guards_of(f, set(f.blocks), b)
-                ok = any(re.search(r'\(%s >= 0\)' % re.escape(a.get('n')), x) and not x.startswith('!') for x in g)
+                val = lambda v: (lambda t: ('v', v) if t.get('k') == 'var' and t.get('id') == a.get('id') else None)
+                ok = G.excluded_under(f, b, val(-1)) and G.excluded_under(f, b, val(-200000)) and not G.excluded_under(f, b, val(0))
                 why = 'external value; guards %s' % g
         rep.ob(clause, 'K12 range', '%s: half-move clock writer #%d passes a value known to be >= 0' % (f.sname, k + 1), ok, R.site(f, e), why, f.sname)
     # other writers of the field
@@ -449,7 +449,11 @@ def c3_external_ints(fb, rep):
                     elif isinstance(ix, dict) and ix.get('k') == 'bin' and ix.get('op') == '/':
                         # clock / 10 under the guard clock < 80
                         gs = G.guards_of(f, set(f.blocks), b)
-                        if not any('halfMoveClock < 80' in x and not x.startswith('!') for x in gs):
+                        # the bucket index clock / d stays inside the table for every clock value that can reach the access
+                        dv_ = (_strip(ix.get('r')) or {}).get('cv')
+                        clk = lambda v: (lambda t: ('v', v) if t.get('k') == 'mem' and (ap(t) or '').split('.')[-1] == 'halfMoveClock' else None)
+                        reach = [v for v in range(0, 400) if not G.excluded_under(f, b, clk(v))]
+                        if not dv_ or ext is None or not reach or len(reach) == 400 or max(reach) // dv_ >= ext:
                             bad.append(show(ix))
                     else:
                         bad.append(show(ix))
